@@ -1,0 +1,138 @@
+#![allow(dead_code)]
+//! Verification hooks, compiled only with the cargo feature `verif`.
+//!
+//! Everything here is additive: with the feature off this module does not exist and no
+//! call site is compiled. The hooks give an external harness
+//!
+//! * a callback that is invoked at *points* (before every storage write, before the
+//!   `matched_blocks` lock is taken, inside RPC readers). The callback may unwind (crash
+//!   injection) or park the calling thread (schedule exploration);
+//! * a deterministic replacement for `rand::thread_rng()`;
+//! * a `DashMap` with a fixed hasher so that iteration order is reproducible.
+
+use std::collections::hash_map::DefaultHasher;
+use std::collections::VecDeque;
+use std::hash::{BuildHasherDefault, Hash};
+use std::ops::Deref;
+use std::sync::{Arc, Mutex, RwLock};
+
+/// `(kind, label, probe)`; `probe` is only given for lock points and tells whether the lock
+/// could be taken right now without blocking.
+pub type PointFn = dyn Fn(&'static str, &'static str, Option<&dyn Fn() -> bool>) + Send + Sync;
+
+static POINT: RwLock<Option<Arc<PointFn>>> = RwLock::new(None);
+
+pub fn set_point_hook(hook: Option<Arc<PointFn>>) {
+    *POINT.write().unwrap_or_else(|e| e.into_inner()) = hook;
+}
+
+fn current_hook() -> Option<Arc<PointFn>> {
+    POINT.read().unwrap_or_else(|e| e.into_inner()).clone()
+}
+
+/// A plain point (storage write, reader mid-point).
+pub fn point(kind: &'static str, label: &'static str) {
+    if let Some(hook) = current_hook() {
+        hook(kind, label, None);
+    }
+}
+
+/// A point right before a lock is acquired.
+pub fn lock_point(label: &'static str, probe: &dyn Fn() -> bool) {
+    if let Some(hook) = current_hook() {
+        hook("lock", label, Some(probe));
+    }
+}
+
+struct RngState {
+    state: u64,
+    forced: VecDeque<u64>,
+    draws: u64,
+}
+
+static RNG: Mutex<RngState> = Mutex::new(RngState {
+    state: 0x9E37_79B9_7F4A_7C15,
+    forced: VecDeque::new(),
+    draws: 0,
+});
+
+/// Re-seeds the deterministic generator and clears forced draws and the draw counter.
+pub fn rng_reset(seed: u64) {
+    let mut rng = RNG.lock().unwrap_or_else(|e| e.into_inner());
+    rng.state = seed ^ 0x9E37_79B9_7F4A_7C15;
+    rng.forced.clear();
+    rng.draws = 0;
+}
+
+/// The next `values.len()` 64-bit draws return exactly `values`.
+pub fn rng_force(values: &[u64]) {
+    let mut rng = RNG.lock().unwrap_or_else(|e| e.into_inner());
+    rng.forced.extend(values.iter().copied());
+}
+
+/// Number of 64-bit draws since the last reset.
+pub fn rng_draws() -> u64 {
+    RNG.lock().unwrap_or_else(|e| e.into_inner()).draws
+}
+
+pub struct VerifRng;
+
+impl ::rand::RngCore for VerifRng {
+    fn next_u32(&mut self) -> u32 {
+        (self.next_u64() >> 32) as u32
+    }
+    fn next_u64(&mut self) -> u64 {
+        let mut rng = RNG.lock().unwrap_or_else(|e| e.into_inner());
+        rng.draws += 1;
+        if let Some(v) = rng.forced.pop_front() {
+            return v;
+        }
+        // splitmix64
+        rng.state = rng.state.wrapping_add(0x9E37_79B9_7F4A_7C15);
+        let mut z = rng.state;
+        z = (z ^ (z >> 30)).wrapping_mul(0xBF58_476D_1CE4_E5B9);
+        z = (z ^ (z >> 27)).wrapping_mul(0x94D0_49BB_1331_11EB);
+        z ^ (z >> 31)
+    }
+    fn fill_bytes(&mut self, dest: &mut [u8]) {
+        for chunk in dest.chunks_mut(8) {
+            let v = self.next_u64().to_le_bytes();
+            chunk.copy_from_slice(&v[..chunk.len()]);
+        }
+    }
+    fn try_fill_bytes(&mut self, dest: &mut [u8]) -> Result<(), ::rand::Error> {
+        self.fill_bytes(dest);
+        Ok(())
+    }
+}
+
+/// Drop-in for the `rand` crate path: `use crate::verif_hooks::rand_shim as rand;`.
+pub mod rand_shim {
+    pub use ::rand::*;
+
+    pub fn thread_rng() -> super::VerifRng {
+        super::VerifRng
+    }
+}
+
+/// `DashMap` with a fixed hasher (reproducible iteration order across instances and runs).
+pub struct DetDashMap<K, V>(dashmap::DashMap<K, V, BuildHasherDefault<DefaultHasher>>);
+
+impl<K: Eq + Hash, V> DetDashMap<K, V> {
+    pub fn new() -> Self {
+        Self(dashmap::DashMap::with_hasher(BuildHasherDefault::default()))
+    }
+}
+
+impl<K: Eq + Hash, V> Default for DetDashMap<K, V> {
+    fn default() -> Self {
+        Self::new()
+    }
+}
+
+impl<K, V> Deref for DetDashMap<K, V> {
+    type Target = dashmap::DashMap<K, V, BuildHasherDefault<DefaultHasher>>;
+    fn deref(&self) -> &Self::Target {
+        &self.0
+    }
+}
